@@ -438,13 +438,15 @@ class AWorld:
                 if getattr(conn, 'fail_next_send', 0):
                     conn.fail_next_send -= 1    # one write fails, the connection itself survives
                     conn.soft_failed_at = self.clock.now
-                    raise OSError('write failed (scripted, transient)')
+                    from .gw import write_error
+                    raise write_error(conn, 'write failed (scripted, transient)')
                 if conn.failed:
                     # the network path is dead: what the server writes now reaches nobody, and
                     # the gateway says so (as uvicorn does with ClientDisconnected, an OSError;
                     # the threaded world's WebSocket wrapper raises OSError as well)
                     conn.lost = getattr(conn, 'lost', 0) + 1
-                    raise OSError('connection lost')
+                    from .gw import write_error
+                    raise write_error(conn, 'connection lost')
                 else:
                     conn.sent.append((self.clock.now, x if x is not None else bytes(b or b'')))
             elif t == 'websocket.close':
@@ -492,8 +494,9 @@ class AWorld:
     def ws_fail_next_send(self, conn):
         conn.fail_next_send = getattr(conn, 'fail_next_send', 0) + 1
 
-    def ws_fail(self, conn):
+    def ws_fail(self, conn, exc=None):
         conn.failed = True
+        conn.fail_exc = exc
         conn.peer_closed = True
         self._push(conn, {'type': 'websocket.disconnect', 'code': 1006})
 
